@@ -31,6 +31,7 @@
 
 #include "process.h"            /* struct process */
 #include "signals.h"            /* halt() */
+#include "verif.h"
 
 
 /*
@@ -113,6 +114,7 @@ xread(void *vbuf, size_t *vacant)
   do {
     ssize_t rd;
 
+    VERIF_YIELD(VS_READ_PRE, 0);
     rd = read(ispec.fd, buffer, *vacant > (size_t)SSIZE_MAX ?
               (size_t)SSIZE_MAX : *vacant);
 
@@ -128,6 +130,7 @@ xread(void *vbuf, size_t *vacant)
     *vacant -= (size_t)rd;
     buffer += (size_t)rd;
     ispec.total += (size_t)rd;
+    VERIF_YIELD(VS_READ_POST, 0);
   }
   while (*vacant > 0);
 }
@@ -143,6 +146,7 @@ xwrite(const void *vbuf, size_t size)
     do {
       ssize_t wr;
 
+      VERIF_YIELD(VS_WRITE_PRE, 0);
       wr = write(ospec.fd, buffer, size > (size_t)SSIZE_MAX ?
                  (size_t)SSIZE_MAX : size);
 
@@ -153,6 +157,7 @@ xwrite(const void *vbuf, size_t size)
 
       size -= (size_t)wr;
       buffer += (size_t)wr;
+      VERIF_YIELD(VS_WRITE_POST, 0);
     }
     while (size > 0);
   }
@@ -314,6 +319,7 @@ source_release_buffer(void *buffer)
 {
   free(buffer);
 
+  VERIF_YIELD(VS_SRC_RELEASE, 0);
   xlock(&source_mutex);
   if (in_slots++ == 0)
     xsignal(&source_cond);
@@ -341,6 +347,7 @@ sink_write_buffer(void *buffer, size_t size, size_t weight)
   block.size = size;
   block.weight = weight;
 
+  VERIF_YIELD(VS_SINK_WRITE, 0);
   xlock(&sink_mutex);
   push(output_q, block);
   xsignal(&sink_cond);
@@ -468,6 +475,7 @@ static struct thread_entry worker_thread_entry = { worker_thread_proc };
 void
 sched_lock(void)
 {
+  VERIF_YIELD(VS_SCHED_LOCK, 0);
   xlock(&sched_mutex);
 }
 
@@ -482,6 +490,7 @@ sched_unlock(void)
     xsignal(&sched_cond);
 
   xunlock(&sched_mutex);
+  VERIF_YIELD(VS_SCHED_UNLOCK, 0);
 }
 
 
